@@ -11,7 +11,7 @@ func init() {
 	register(&propDef{
 		ID:       "C15",
 		Title:    "Non-intercepted packets are relayed byte-identical and in order",
-		Patterns: []string{"./pkg/edition/java/proxy", "./pkg/edition/java/netmc", "./pkg/edition/java/proto/codec", "./pkg/edition/java/lite"},
+		Patterns: []string{"./pkg/edition/java/proxy", "./pkg/edition/java/netmc", "./pkg/edition/java/proto/codec", "./pkg/edition/java/lite", "./pkg/internal/bufpool"},
 		Run:      runC15,
 		Rule: "P5: every forward helper of the play/config session handlers (forwardToServer / forwardToPlayer) passes exactly <packet context>.Payload to the connection's Write, and " +
 			"netmc/codec hand that slice on to the frame writer untouched; no instruction in proxy, netmc, codec or lite stores into, copies into or appends to a PacketContext.Payload, and the " +
@@ -37,6 +37,7 @@ func init() {
 }
 
 func runC15(c *Ctx) {
+	checkPoolHandsOutEmpty(c, "scratch-buffer-empty")
 	proxyFns := c.P.Funcs(Mod + "/" + pkgProxy)
 	isPayloadOf := func(v ssa.Value, base string) bool {
 		ld, ok := v.(*ssa.UnOp)
